@@ -1,3 +1,22 @@
 -- GENERATED: axiom audit of the property theorems of C36
 import SquidModel.Properties.C36
+#print axioms SquidModel.C36.encode_chunking_irrelevant
+#print axioms SquidModel.C36.decode_chunking_irrelevant
+#print axioms SquidModel.C36.decode_encode
+#print axioms SquidModel.C36.decode_encode_ws
+#print axioms SquidModel.C36.encode_group_agrees
+#print axioms SquidModel.C36.encode_injective
+#print axioms SquidModel.C36.decode_bound
+#print axioms SquidModel.C36.decode_no_assert
+#print axioms SquidModel.C36.encode_bound
 #print axioms SquidModel.C36.malformed_accepted_counterexample
+#print axioms SquidModel.C36.malformed_accepted_class
+#print axioms SquidModel.C36.malformed_rejected_partial
+#print axioms SquidModel.C36.accepted_iff_canonical_partial
+#print axioms SquidModel.C36.basic_split
+#print axioms SquidModel.C36.basic_no_colon
+#print axioms SquidModel.C36.basic_result_clean
+#print axioms SquidModel.C36.basic_sound_partial
+#print axioms SquidModel.C36.nul_truncation_counterexample
+#print axioms SquidModel.C36.basic_buffer_safe
+#print axioms SquidModel.C36.nettle_same_tables
